@@ -10,7 +10,9 @@ from common import text
 EXTRA_COQ_FILES = ('GenFacts/ConstantsOK.v',)
 RULE = ('frames of 1..4 channels x dtype x width {None,1,2,3,7} x cast (narrower/wider) x user DIMENSION / ELEMENT-LIMIT '
         '(absent, equal, larger valid limit, inconsistent) x channel shared by two frames x same dataset under two channel '
-        'names x channel absent from every frame; decoded CHANNEL/FRAME objects and FDATA record lengths from the file only. '
+        'names x channel absent from every frame; decoded CHANNEL/FRAME objects and FDATA record lengths from the file only; slot values in '
+        'listed channel order (structured sources with permuted fields); one DLISFile written twice with data of another width / dtype or an '
+        'edited DIMENSION: refused or self-consistent. '
         'Distinct by the tuple of per-channel (dtype, width, cast, user dimension, user limit).')
 ASSUMPTIONS = ['numpy casts trusted']
 PARTIAL = ''
@@ -79,7 +81,9 @@ def run(ctx):
         if src_kind == 'dict':
             wdata = dict(arrays_by_name)
         elif src_kind == 'struct':
-            fields = [(c['name'], arrays_by_name[c['name']].dtype) if c['width'] is None else (c['name'], arrays_by_name[c['name']].dtype, (c['width'],)) for c in chans]
+            order = list(chans)
+            rng.shuffle(order)          # the source's field order is NOT the frame's channel order
+            fields = [(c['name'], arrays_by_name[c['name']].dtype) if c['width'] is None else (c['name'], arrays_by_name[c['name']].dtype, (c['width'],)) for c in order]
             wdata = np.zeros(rows, dtype=np.dtype(fields))
             for c in chans:
                 wdata[c['name']] = arrays_by_name[c['name']]
@@ -146,10 +150,95 @@ def run(ctx):
                             break
                 if not bad and nrec != rows:
                     ctx.violation('frame-has-wrong-number-of-records', {**det, 'frame': fo.name, 'records': nrec})
+                # ... and, sliced with these descriptors, the slots hold the values of the channels IN THE LISTED ORDER
+                if not bad and fo.name[2] == 'F1' and all(datagen.cast_is_value_safe(c) for c in chans[:nch]):
+                    exp = [datagen.expected_slots(chans[i]) for i in range(nch)]
+                    row = 0
+                    for d, b in zip(dec, mine):
+                        hdr = ctx.model.one([2, 23, b])
+                        if hdr[0] == 0 and filemodel._obname(hdr[1][0]) == fo.name and d[0] == 0:
+                            got_slots = [[int(x) for x in (sl[1].v if hasattr(sl[1], 'v') else sl[1])] for sl in d[1][2]]
+                            want_slots = [exp[i][row][1] for i in range(nch)]
+                            if got_slots != want_slots:
+                                ctx.violation('slots-not-in-listed-channel-order', {**det, 'frame': fo.name, 'row': row, 'decoded': got_slots, 'expected': want_slots})
+                                bad = True
+                                break
+                            row += 1
                 if bad:
                     break
         if k % 17 == 0:
             ctx.sample({'stream': 'K-descr', **det})
+    run_rewrites(ctx)
+
+
+def records_match_descriptors(ctx, dfm, det):
+    """From the file alone: every frame-data record decodes exactly with the code / dimension of the CHANNEL objects its frame lists."""
+    chobjs = {ob.name: ob for s in dfm.sets('CHANNEL') for ob in s.objects}
+    for fs in dfm.sets('FRAME'):
+        for fo in fs.objects:
+            descr = []
+            for v in fo.attrs['CHANNELS'].values:
+                ob = chobjs.get(v[1])
+                rc, dim = (ob.attrs.get('REPRESENTATION-CODE'), ob.attrs.get('DIMENSION')) if ob is not None else (None, None)
+                if ob is None or rc is None or not rc.values or dim is None or not dim.values:
+                    ctx.violation('channel-without-code-or-dimension', {**det, 'frame': fo.name, 'channel': v[1]})
+                    return False
+                descr.append([filemodel.CODE_SIZE[rc.values[0][1]], int(np.prod([x[1] for x in dim.values]))])
+            for (_, t, b) in dfm.iflrs(0):
+                hdr = ctx.model.one([2, 23, b])
+                if hdr[0] == 0 and filemodel._obname(hdr[1][0]) == fo.name:
+                    if ctx.model.one([13, descr, b])[0] != 0:
+                        ctx.violation('record-length-does-not-match-descriptors', {**det, 'frame': fo.name, 'body_len': len(b), 'descr': descr})
+                        return False
+    return True
+
+
+def run_rewrites(ctx):
+    """One DLISFile written twice; between the writes the data change shape or dtype, or DIMENSION is edited: the second
+    write is refused, or its file is as self-consistent as the first."""
+    from dliswriter import DLISFile
+    rng = ctx.rng('rewrite')
+    for k in range(18 if ctx.tier == 'quick' else 180):
+        rows = rng.randrange(1, 5)
+        dt1, w1 = rng.choice(datagen.DTYPES), rng.choice([None, 2, 3])
+        change = rng.choice(['width', 'dtype', 'edit_dimension', 'cast_none_dtype', 'nothing'])
+        dt2, w2 = dt1, w1
+        if change == 'width':
+            w2 = rng.choice([x for x in (None, 2, 3, 5) if x != w1])
+        elif change in ('dtype', 'cast_none_dtype'):
+            dt2 = rng.choice([x for x in datagen.DTYPES if x != dt1])
+
+        def arr(dt, w, seed):
+            r = np.random.RandomState(seed)
+            shape = (rows,) if w is None else (rows, w)
+            return (r.randint(0, 100, size=shape)).astype(dt)
+        df = DLISFile()
+        lf = df.add_logical_file()
+        lf.add_origin('O', file_set_number=1, creation_time='2020/01/01 00:00:00')
+        ch = lf.add_channel('A')
+        other = lf.add_channel('B')
+        lf.add_frame('F', channels=[ch, other])
+        det = {'rows': rows, 'first': [dt1, w1], 'second': [dt2, w2], 'change': change}
+        o1 = impl.outcome(lambda: impl.write_real(df, data={'A': arr(dt1, w1, 1), 'B': arr('float64', None, 2)}))
+        ctx.count('K-descr-rewrite', key=(k, change))
+        if o1[0] != 'ok':
+            ctx.violation('first-write-raises', {**det, 'impl': o1})
+            continue
+        if change == 'edit_dimension':
+            ch.dimension.value = [7]
+        if change == 'cast_none_dtype':
+            ch.cast_dtype = None
+        o2 = impl.outcome(lambda: impl.write_real(df, data={'A': arr(dt2, w2, 3), 'B': arr('float64', None, 4)}))
+        ctx.stat('K-descr-rewrite', 'second_' + ('written' if o2[0] == 'ok' else 'refused'))
+        if o2[0] != 'ok':
+            if change == 'nothing':
+                ctx.violation('second-write-of-unchanged-specification-raises', {**det, 'impl': o2})
+            continue
+        dfm = filemodel.read_file(ctx, o2[1]['file'], 8192)
+        if not dfm.ok:
+            ctx.violation('file-rejected-by-strict-reader', det)
+            continue
+        records_match_descriptors(ctx, dfm, det)
 
 
 def replay(ctx, data):
